@@ -51,6 +51,9 @@ Swallowing == {"Ping"}
 Ev(k, m) ==
   [kind |-> k, m |-> m,
    n |-> IF k = "down" THEN Outage ELSE Burst,
+   \* what every call of the burst that is not rejected by the breaker returns
+   err |-> IF m \in Swallowing THEN "" ELSE
+           CASE k = "ok" -> "" [] k = "nil" -> "nil" [] k = "cancel" -> "canceled" [] k = "down" -> "conn",
    \* verdict on the calls of this burst that reach the breaker
    expect |-> IF bad THEN "must-reject" ELSE IF k = "down" THEN "any" ELSE "never-reject",
    other |-> "never-reject"]
